@@ -386,3 +386,22 @@ Definition stress_spec (n total seed pk maxin : Z) (tr : list oev) (out : list Z
   list_eqb out [total; Z.of_nat (count_upto (stress_panics seed pk) (Z.to_nat total)); 1%Z] &&
   forallb (fun e => let '(c, i, v) := e in
              if (c =? E_PANIC)%Z then stress_panics seed pk i && (v =? 1000 + i)%Z else true) tr.
+
+(* ------------------------------------------------------------------------------------------------
+   Wait(d) with a timeout (goz.go, Limiter.Wait, the `len(waitTime) > 0` branch): a helper goroutine calls l.w.Wait() and then
+   signals on `quit`; the caller selects between `quit` and time.After(d).  Added on top of [ev] (nothing above changes; the run
+   does not produce these events):
+     WaitTimeoutReturn true    the quit branch: the helper's l.w.Wait() returned (enabled iff the counter is 0; as for WaitReturn
+                               the hand-over to the caller is not a separate step)
+     WaitTimeoutReturn false   the timer branch: enabled in every state — the call may return at any time, tasks still active
+   The Go method returns nothing, so the caller cannot tell the branches apart; [ok] is the branch taken, not a result. *)
+Inductive evt := Ev (e : ev) | WaitTimeoutReturn (ok : bool).
+Definition step_t (s : st) (e : evt) : option st :=
+  match e with
+  | Ev e => step s e
+  | WaitTimeoutReturn true => if wg s =? 0 then Some s else None
+  | WaitTimeoutReturn false => Some s
+  end.
+Fixpoint accepts_t (s : st) (tr : list evt) : option st :=
+  match tr with [] => Some s | e :: t => match step_t s e with None => None | Some s' => accepts_t s' t end end.
+Definition base_events (tr : list evt) : list ev := flat_map (fun e => match e with Ev e => [e] | WaitTimeoutReturn _ => [] end) tr.
